@@ -1,5 +1,6 @@
-(* C06 shares the lifecycle entry points *)
+(* C06: lifecycle entry points, comparing the observables this property is about *)
+From Coq Require Import NArith.
 From AdltV Require Export Base.Obs Exec.Lifecycle.
 Definition case_C06 := case_LC.
-Definition agree_C06 := agree_LC.
+Definition agree_C06 := agree_LC_mode 6%N.
 Definition run_C06 := run_LC.
